@@ -69,13 +69,26 @@ def run(rep, tier, seed, replay):
         cases, stats = G.gen(seed, tier)
     mo = [canon_model(l) for l in ltv.run_sharded(model, cases, env={"LTV_PAGE": str(page)})]
     io = ltv.run_sharded(impl, cases, timeout=900)   # per-case 30 s watchdog inside the harness (common/supervise.h)
+    # the supervisor reports a dead worker as "CRASH exit=N"; name the sanitizer report for the first few
+    named = 0
+    for i, o in enumerate(io):
+        if o.startswith("CRASH") and named < 5:
+            named += 1
+            r1, e1, rc1 = ltv.run_lines(impl, [cases[i]], timeout=120)
+            kind = ltv.crash_kind(e1, rc1)
+            if kind and not kind.startswith("rc="):
+                io[i] = o + " (" + kind + ")"
     nontrivial = set()
+    skipped = 0
     mism = 0
     samples = []
     nops = 0
     for i, case in enumerate(cases):
         m = mo[i] if i < len(mo) else "MISSING"
         o = io[i] if i < len(io) else "MISSING"
+        if o.startswith("SKIPPED-AFTER-HANGS"):
+            skipped += 1          # the supervisor gave up on this shard after three hangs: not evaluated
+            continue
         nops += case.count(";")
         # non-trivial: at least one chunk was created, written and read back by the implementation
         if "wr=ok" in o and "dump=" in o:
@@ -105,7 +118,7 @@ def run(rep, tier, seed, replay):
                         "sequences + loader-driven torrents (download_add, files not path-sorted) + sparse >4 GiB layouts (pread at "
                         "absolute offsets) + page-sized layouts + exhaustive small size vectors; non-trivial = distinct case in which the implementation created a chunk, "
                         "wrote into it successfully and the files were read back from disk",
-                   samples=samples, input_distribution=stats, mismatches=mism,
+                   samples=samples, input_distribution=stats, mismatches=mism, skipped_after_hangs=skipped,
                    exhaustive=stats.get("exhaustive_scope", False))
     rep.assumptions += ["total size > 0 (the loader rejects zero-length torrents; FileList::completed_bytes reads bitfield bit "
                         "size_chunks()-1 and is not called on an empty torrent)",
@@ -116,6 +129,10 @@ def run(rep, tier, seed, replay):
                         "per-file completed_chunks (File::completed_chunks): oracle = number of set pieces overlapping the file, never above its "
                         "piece count, 0 for empty files (strict since fix 17569a5; a counter above that is klass file-completed-overcount); "
                         "after raw bitfield edits (op S) the counters are only compared again after update_completed / re-open",
+                        "op X = Chunk::preload + the do { data(); io; } while (n && forward(n)) loop of PeerConnectionBase::down_chunk / up_chunk, "
+                        "run in the harness with the real ChunkIterator and a scripted schedule of short transfers (the socket, throttle and "
+                        "encryption around it are not part of C02); ranges with first >= last are modelled but not generated",
+                        "every case runs under the 30 s per-case watchdog of harness/common/supervise.h (HANG -> klass hang, run continues)",
                         "op H = HashChunk over create_hashing_chunk_index(idx) with a schedule of perform(l, force=true) calls; the model prints the bytes "
                         "handed to SHA-1 and the glue hashes them with hashlib (SHA-1 is an external function on both sides); incore_length / "
                         "force=false is not modelled",
